@@ -14,6 +14,22 @@ import (
 
 // ---- C14: no panic, no blow-up --------------------------------------------------------------------------
 
+// guarded runs f under a deadline and a recover: (panic value, stalled).  A stalled goroutine cannot
+// be killed; the caller records the witness and winds the run up.
+func guarded(budget time.Duration, f func()) (pv any, stalled bool) {
+	done := make(chan any, 1)
+	go func() {
+		defer func() { done <- recover() }()
+		f()
+	}()
+	select {
+	case pv = <-done:
+		return pv, false
+	case <-time.After(budget):
+		return nil, true
+	}
+}
+
 func c14Mode(args []string) {
 	fs := flag.NewFlagSet("c14", flag.ExitOnError)
 	seed := fs.Int64("seed", 1, "seed")
@@ -75,15 +91,15 @@ sweep:
 		gp := ps.buildGo()
 		for _, doc := range big {
 			t0 := time.Now()
-			func() {
-				defer func() {
-					if r := recover(); r != nil {
-						sum.OracleFails = append(sum.OracleFails, map[string]any{"kind": "panic", "clause": fmt.Sprint("panic: ", r), "policy": ps, "input_hex": hexOf(doc[:min(len(doc), 200)])})
-					}
-				}()
-				gp.Sanitize(doc)
-			}()
+			pv, stalled := guarded(20**budget, func() { gp.Sanitize(doc) })
 			sum.Evaluations++
+			if pv != nil {
+				sum.OracleFails = append(sum.OracleFails, map[string]any{"kind": "panic", "clause": fmt.Sprint("panic: ", pv), "policy": ps, "input_hex": hexOf(doc[:min(len(doc), 200)])})
+			}
+			if stalled {
+				sum.OracleFails = append(sum.OracleFails, map[string]any{"kind": "slow", "clause": fmt.Sprintf("%d byte input does not finish within %v", len(doc), 20**budget), "policy": ps, "input_hex": hexOf(doc[:min(len(doc), 200)]), "input_text": doc[:min(len(doc), 200)]})
+				goto finish
+			}
 			if dt := time.Since(t0); dt > 4**budget {
 				sum.OracleFails = append(sum.OracleFails, map[string]any{"kind": "slow", "clause": fmt.Sprintf("%d byte input needs %v", len(doc), dt), "policy": ps, "input_hex": hexOf(doc[:200])})
 			}
@@ -100,14 +116,16 @@ sweep:
 				}
 				doc := "<" + el + " " + key + "=\"" + strings.ReplaceAll(u, "\"", "&quot;") + "\" alt=x>"
 				sum.Evaluations++
-				func() {
-					defer func() {
-						if r := recover(); r != nil && len(sum.OracleFails) < 10 {
-							sum.OracleFails = append(sum.OracleFails, map[string]any{"kind": "panic", "clause": fmt.Sprint("panic: ", r), "policy": ps, "input_hex": hexOf(doc), "input_text": doc})
-						}
-					}()
-					distinct[gp.Sanitize(doc)] = true
-				}()
+				var out string
+				pv, stalled := guarded(*budget, func() { out = gp.Sanitize(doc) })
+				if pv != nil && len(sum.OracleFails) < 10 {
+					sum.OracleFails = append(sum.OracleFails, map[string]any{"kind": "panic", "clause": fmt.Sprint("panic: ", pv), "policy": ps, "input_hex": hexOf(doc), "input_text": doc})
+				}
+				if stalled {
+					sum.OracleFails = append(sum.OracleFails, map[string]any{"kind": "slow", "clause": fmt.Sprintf("a %d byte input does not finish within %v", len(doc), *budget), "policy": ps, "input_hex": hexOf(doc), "input_text": doc})
+					goto finish
+				}
+				distinct[out] = true
 			}
 		}
 	}
@@ -121,19 +139,23 @@ sweep:
 				doc = mutate(rng, mutate(rng, doc))
 			}
 			sum.Evaluations++
-			func() {
-				defer func() {
-					if r := recover(); r != nil {
-						sum.OracleFails = append(sum.OracleFails, map[string]any{"kind": "panic", "clause": fmt.Sprint("panic: ", r), "policy": ps, "input_hex": hexOf(doc), "input_text": doc})
-					}
-				}()
-				out := gp.Sanitize(doc)
+			var out string
+			pv, stalled := guarded(*budget, func() {
+				out = gp.Sanitize(doc)
 				gp.SanitizeBytes([]byte(doc))
 				gp.SanitizeReader(strings.NewReader(doc))
-				distinct[out] = true
-			}()
+			})
+			if pv != nil {
+				sum.OracleFails = append(sum.OracleFails, map[string]any{"kind": "panic", "clause": fmt.Sprint("panic: ", pv), "policy": ps, "input_hex": hexOf(doc), "input_text": doc})
+			}
+			if stalled {
+				sum.OracleFails = append(sum.OracleFails, map[string]any{"kind": "slow", "clause": fmt.Sprintf("a %d byte input does not finish within %v", len(doc), *budget), "policy": ps, "input_hex": hexOf(doc), "input_text": doc})
+				goto finish
+			}
+			distinct[out] = true
 		}
 	}
+finish:
 	sum.Nontrivial = len(distinct)
 	sum.Samples = append(sum.Samples, map[string]any{"family": "text-decoration: underline x n !", "sizes": []int{8, 16, 24, 32, 48}})
 	sum.emit()
